@@ -34,7 +34,7 @@ def tlaset(xs):
 
 def write_cfg(name, dims, nxs, nvar, steps, maxhist):
     os.makedirs(vlib.BUILD, exist_ok=True)
-    p = os.path.join(vlib.BUILD, name + ".cfg")
+    p = os.path.join(vlib.cfgdir(), name + ".cfg")
     with open(p, "w") as f:
         f.write(CFG_T.format(dims=tlaset(dims), nxs=tlaset(nxs), nvar=nvar, steps=tlaset([s + 100 for s in steps]), maxhist=maxhist))
     return p
